@@ -153,6 +153,7 @@ type Engine struct {
 	knownHit    map[string]*Violation
 	timeNow     *Term
 	nowSeq      int
+	bitsSeq     int
 	model       *Model
 	pathVars    []*Term
 	crcSeq      int
@@ -220,7 +221,7 @@ func (e *Engine) resetPath(prefix []decision) {
 	e.depth = 0
 	e.goCalls = nil
 	e.timeNow = nil
-	e.nowSeq, e.crcSeq, e.rndSeq = 0, 0, 0
+	e.nowSeq, e.crcSeq, e.rndSeq, e.bitsSeq = 0, 0, 0, 0
 	e.pathVars = e.pathVars[:0]
 }
 
@@ -477,12 +478,24 @@ func (e *Engine) query(extra *Term, wantModel []*Term) (Result, map[*Term]uint64
 	}
 	asserts := append(append([]*Term{}, e.pc...), extra)
 	t0 := time.Now()
-	r, m := e.solver.Check(asserts, wantModel)
-	if r == Unknown && e.altKind != "" {
-		if e.alt == nil {
+	var r Result
+	var m map[*Term]uint64
+	getAlt := func() *Solver {
+		if e.alt == nil && e.altKind != "" {
 			e.alt, _ = NewSolver(e.altKind, e.solver.timeoutMs)
 		}
-		if e.alt != nil {
+		return e.alt
+	}
+	if e.ts.fpUsed && e.altKind == "cvc5" && getAlt() != nil {
+		// floating-point queries: cvc5 first (measured ~60x faster than z3 on the RTO lemmas), z3 as fallback
+		r, m = e.alt.Check(asserts, wantModel)
+		e.stats.AltQueries++
+		if r == Unknown {
+			r, m = e.solver.Check(asserts, wantModel)
+		}
+	} else {
+		r, m = e.solver.Check(asserts, wantModel)
+		if r == Unknown && getAlt() != nil {
 			r, m = e.alt.Check(asserts, wantModel)
 			e.stats.AltQueries++
 		}
@@ -615,6 +628,13 @@ func (e *Engine) vectorFromModel(m map[*Term]uint64) []VecEntry {
 }
 
 func (e *Engine) recordValidation() {
+	defer func() {
+		if r := recover(); r != nil {
+			if _, ok := r.(pathEnd); !ok {
+				panic(r)
+			}
+		}
+	}()
 	want := e.modelTerms()
 	for _, o := range e.obs {
 		if !o.Term.IsConst() {
